@@ -100,6 +100,9 @@ def benign_patch_variants(prop):
 
 
 TRIAGE_UNDECIDED = ('M0851',)     # judged "marginal" by the triage itself
+# the triage named two properties; the check that decides it belongs to the
+# second one (the root cause)
+TRIAGE_PROPERTY = {'M1095': 'C02', 'M0662': 'C07'}
 
 
 def triage_variants(prop):
@@ -121,7 +124,7 @@ def triage_variants(prop):
         v = r['verdict']
         if v.startswith('BREAKS'):
             m = re.search(r'C\d\d', v)
-            if m and m.group(0) == prop:
+            if m and TRIAGE_PROPERTY.get(r['id'], m.group(0)) == prop:
                 out.append(dict(id='mutant:' + r['id'], prop=prop, rule=None,
                                 kind='break', edits=[], patch=d, function=None))
         elif v.startswith('EQUIV'):
